@@ -24,6 +24,18 @@ CHECKS = {
         note="Trusted: CPython, renderer, reference. Single-inheritance chains only (DAGs: C04). StopIteration bodies excluded.",
         technique="explicit exhaustive enumeration on the real code, reference-interpreter oracle on event logs and object identity",
         design="3/C02"),
+    "C04": dict(
+        text="Exhaustive exploration of class hierarchies on DBC (single, chains of 2-3, two bases in both orders, diamond, "
+             "Y shape; <=4 classes) x member kind (method, static, class method, property get/set/del) x every per-class "
+             "placement (absent / bare / +pre / +2 pre / +post / +pre+post) x invariant placement, plus members named "
+             "__call__/register/mro/__eq__ and constructor contract placements. On an instance of every class and for all "
+             "truth assignments the accept/reject verdict, evaluated postcondition set, invariant set and class-creation "
+             "errors are compared with a structural-recursion reference (DNF/CNF of the declaration; Python's own MRO from a "
+             "bare twin hierarchy).",
+        note="Trusted: CPython (MRO of the bare twin), renderer, reference. Where the statement is silent (class adds "
+             "preconditions while only some bases are unconstrained) both rejection and precondition TRUE are accepted.",
+        technique="explicit exhaustive enumeration of hierarchies x placements x truth assignments on the real code, structural-recursion reference",
+        design="3/C04"),
     "C05": dict(
         text="Exhaustive enumeration of signature shapes (<=2 positional-only, <=2 positional-or-keyword, *args, <=2 keyword-only, "
              "**kwargs, every legal default placement, +-self) x every call shape that inspect.Signature.bind accepts within the "
